@@ -379,6 +379,13 @@ CORPUS = [
     # symmetry broken by exactly ONE of the two non-symmetric axis blocks (zc alone; rs alone), sigma0 = 0, B2s = 0
     dict(rc=[1.0, 0.09], zs=[0.0, -0.09], zc=[0.0, 0.02], nfp=2, etabar=0.95, order='r2', B2c=-0.7, p2=-600000.0, I2=0.3, nphi=31),
     dict(rc=[1.0, 0.06], zs=[0.0, 0.05], rs=[0.0, 0.01], nfp=3, etabar=1.1, order='r1', nphi=31),
+    # an axis displaced vertically (constant term zc[0] != 0; nothing but Z0 and Z0_func may notice) and an axis whose mean major radius is not 1
+    dict(rc=[1.0, 0.05], zs=[0.0, 0.05], rs=[0.0, 0.005], zc=[0.3, 0.01], nfp=3, etabar=1.0, order='r1', nphi=31),
+    dict(rc=[1.6, 0.144], zs=[0.0, -0.144], nfp=2, etabar=0.59375, order='r2', B2c=-0.2734375, p2=-200000.0, I2=0.1875, nphi=31),
+    # third order with B2s as the ONLY symmetry-breaking input (symmetric axis, sigma0 = 0): first-order symmetry tests do not see it
+    dict(rc=[1.0, 0.09], zs=[0.0, -0.09], nfp=2, etabar=0.95, order='r3', B2c=-0.7, B2s=0.4, p2=-600000.0, I2=0.3, nphi=61),
+    # a very weak current and no pressure: G2 = -iota I2 ~ 1e-9 is small in absolute terms but exactly determined
+    dict(rc=[1.0, 0.045], zs=[0.0, -0.045], nfp=3, etabar=-0.9, order='r2', B2c=-0.7, I2=3.0e-9, p2=0.0, nphi=31),
     # resolved (spectral tail 1e-12) third-order object with pressure, B0 != 1, sG = -1 and a non-symmetric axis: closed forms that agree when B0 = 1 differ here
     dict(rc=[1.0, 0.06], zs=[0.0, 0.05], rs=[0.0, 0.004], zc=[0.0, 0.003], nfp=2, etabar=0.9, order='r3', B2c=0.1, B2s=0.05, I2=0.2, B0=0.8, p2=-30000.0, sG=-1, nphi=61),
     # weakly shaped axis at second order: B20 is nearly uniform (one-pass variance formulas cancel catastrophically)
@@ -406,7 +413,7 @@ def corpus_objects(orders=None, histories=True):
             out.append((dict(cfg), q))
     if histories:
         hr = np.random.default_rng(12345)
-        resolved = [c for c in CORPUS if c.get('nphi') == 61 and c.get('order') == 'r3'][:1]       # spectral tail 1e-12: continuum identities are sharp on it
+        resolved = [c for c in CORPUS if c.get('nphi') == 61 and c.get('order') == 'r3' and c.get('sG') == -1][:1]       # spectral tail 1e-12: continuum identities are sharp on it
         for cfg, variant, wh in [(CORPUS[3], 'B', ('rs', 'zc')), (CORPUS[0], 'A', None), (CORPUS[2], 'C', 'B0'), (CORPUS[3], 'C', 'I2'), (CORPUS[2], 'C', 'signs'), (CORPUS[0], 'C', 'I2')] \
                 + [(c, 'C', w) for c in resolved for w in ('I2', 'B0')]:
             if orders and cfg.get('order', 'r1') not in orders:
@@ -419,6 +426,40 @@ def corpus_objects(orders=None, histories=True):
             # unconverged or non-finite is exactly what the predictions should see)
             out.append((dict(cfg), q))
     return out
+
+
+def position_from_coefficients(q, r, theta, j):
+    """(R, Z, phi) of the point r0 + X n + Y b + Z t at toroidal grid node j, assembled from the HELICAL-angle coefficient arrays (X1c, X20, X3c1, ...), the returned
+    frame and the returned axis -- independent of Frenet_to_cylindrical / to_RZ and of the *_untwisted arrays.  theta is the Boozer poloidal angle;
+    the helical angle is theta + helicity * nfp * varphi."""
+    vt = theta + q.helicity * q.nfp * q.varphi[j]
+    g = lambda name: float(np.asarray(getattr(q, name), dtype=float)[j]) if np.ndim(getattr(q, name)) else float(getattr(q, name))
+    X = r * (g('X1c') * np.cos(vt) + g('X1s') * np.sin(vt)); Y = r * (g('Y1c') * np.cos(vt) + g('Y1s') * np.sin(vt)); Zt = 0.0
+    if q.order != 'r1':
+        X += r * r * (g('X20') + g('X2c') * np.cos(2 * vt) + g('X2s') * np.sin(2 * vt))
+        Y += r * r * (g('Y20') + g('Y2c') * np.cos(2 * vt) + g('Y2s') * np.sin(2 * vt))
+        Zt += r * r * (g('Z20') + g('Z2c') * np.cos(2 * vt) + g('Z2s') * np.sin(2 * vt))
+    if q.order == 'r3':
+        r3 = r ** 3
+        X += r3 * (g('X3c1') * np.cos(vt) + g('X3s1') * np.sin(vt) + g('X3c3') * np.cos(3 * vt) + g('X3s3') * np.sin(3 * vt))
+        Y += r3 * (g('Y3c1') * np.cos(vt) + g('Y3s1') * np.sin(vt) + g('Y3c3') * np.cos(3 * vt) + g('Y3s3') * np.sin(3 * vt))
+        Zt += r3 * (g('Z3c1') * np.cos(vt) + g('Z3s1') * np.sin(vt) + g('Z3c3') * np.cos(3 * vt) + g('Z3s3') * np.sin(3 * vt))
+    n_, b_, t_ = q.normal_cylindrical[j], q.binormal_cylindrical[j], q.tangent_cylindrical[j]
+    vR = q.R0[j] + X * n_[0] + Y * b_[0] + Zt * t_[0]
+    vp = X * n_[1] + Y * b_[1] + Zt * t_[1]
+    vz = q.Z0[j] + X * n_[2] + Y * b_[2] + Zt * t_[2]
+    return float(np.hypot(vR, vp)), float(vz), float(q.phi[j] + np.arctan2(vp, vR))
+
+
+def toRZ_vs_coefficients(q, rng, npts=4, r=0.03):
+    """largest relative deviation of to_RZ((r, theta, phi_j)) from position_from_coefficients over a few nodes / angles"""
+    worst = 0.0
+    for _ in range(npts):
+        j = int(rng.integers(0, q.nphi)); th = float(rng.random() * 6.28)
+        R1, Z1, P1 = q.to_RZ([[r, th, float(q.phi[j])]])
+        R2, Z2, P2 = position_from_coefficients(q, r, th, j)
+        worst = max(worst, abs(float(R1[0]) - R2) / max(abs(R2), 1e-300), abs(float(Z1[0]) - Z2) / max(abs(R2), 1e-300), abs((float(P1[0]) - P2 + np.pi) % (2 * np.pi) - np.pi))
+    return worst
 
 
 def normal_resolved(q):
